@@ -78,6 +78,12 @@ let show_out (st : state) (o : out) =
   | ORestart -> "restart"
   | OIa -> "ia"
   | OHa ok -> if ok then "ha ok" else "ha err"
+  | OPs (isreq, adv, r6, rd) ->
+    let rs = match adv with
+      | None -> "nil"
+      | Some (a6, pd) -> (if isreq then "rep:" else "adv:") ^ show_addr a6 ^ ":" ^ show_item pd in
+    Printf.sprintf "%s %s rec6=%s recd=%s" (if isreq then "pv" else "ps") rs (show_addr r6) (show_item rd)
+  | OPr -> "pr rec6=nil recd=nil"
 
 (* plugins/dhcp6/local lease tables; DUID = 00030001 + MAC *)
 let psnap6 (st : state) =
@@ -134,6 +140,10 @@ let parse_op toks : op option =
   | ["IL"; sid] -> Some (IL (nd sid))
   | ["IT"; sid] -> Some (IT (nd sid))
   | ["IA"; sid] -> Some (IA (nd sid))
+  | ["PS"; sid] -> Some (PS (false, nd sid))
+  | ["PV"; sid] -> Some (PS (true, nd sid))
+  | ["PR"; sid] -> Some (PR (nd sid))
+  | ["PX"; sid] -> Some (PX (nd sid))
   | [("HR" | "HL") as t; fam; key; x; sid] ->
     let f = (match fam with "4" -> F4 | "6" -> F6 | _ -> FD) in
     let it = if f = FD then item_of_tok x else (nd x, N0) in
